@@ -186,11 +186,18 @@ def r3_iff(cx):
         for r in [r for r in walk_body(fn.body) if isinstance(r, ast.Return) and r.value is not None and U(r.value) != "None"]:
             cx.require(U(r.value) in ("(%s, %s)" % tuple(names), "%s, %s" % tuple(names)), r, "every report returned is the pair (missing required, unsatisfied groups) as computed - nothing is dropped from it",
                        construct=short(r))
-        rets = [r for r in walk_body(fn.body) if isinstance(r, ast.Return)]
+        allrets = [r for r in walk_body(fn.body) if isinstance(r, ast.Return)]
+        rets = [r for r in allrets if r.value is not None and U(r.value) != "None"]
+        nones = [r for r in allrets if r not in rets]
+        either = "%s or %s" % tuple(names)
         ok = len(rets) == 1 and U(rets[0].value) in ("(%s, %s)" % tuple(names),)
         if ok:
             g = guard_texts(rets[0])
-            ok = g == set([("%s or %s" % tuple(names), True)])
+            ok = g == set([(either, True)])
+        # an explicit 'return None' is the fall-through made visible: it may only sit where nothing is missing (or at the very end)
+        for r in nones:
+            g = guard_texts(r)
+            ok = ok and (g in (set([(either, False)]), set([(names[0], False), (names[1], False)])) or (r is fn.body[-1] and not g))
         cx.require(ok, rets[0] if rets else fn,
                    "returns (missing required, unsatisfied groups) iff either is non-empty, otherwise falls through to None",
                    construct=short(rets[0]) if rets else "(no return)")
